@@ -61,8 +61,30 @@ class MultiMachine(Machine):
                 n_share = fitlib.size_of(sp)
             members.append(sp)
         ops = [["new", members, sw.choice(["iminuit", "iminuit", "scipy"])]]
+        variant = sw.choice(["plain", "plain", "pre", "pre", "bare", "nodet"])
+        if variant == "nodet" and not share:
+            for sp in members:
+                if sp["type"] in ("xy", "indexed") and rng.random() < 0.6:
+                    sp["nodet"] = True  # documented option add_determinant_cost=False
+        if variant == "pre":
+            # the members have a life before the multi-fit is built: start values, fixed / limited parameters, own sources, constraints
+            for _ in range(rng.randint(1, 4)):
+                i = rng.randrange(k)
+                nm = rng.choice(fitlib.par_names(members[i]))
+                v = self._val(rng, members, nm)
+                r = rng.random()
+                if r < 0.3:
+                    ops.append(["pre", i, ["set", {nm: v}]])
+                elif r < 0.6:
+                    ops.append(["pre", i, ["fix", [nm, None if rng.random() < 0.5 else v]]])
+                elif r < 0.8:
+                    ops.append(["pre", i, ["limit", [nm, v - abs(v) - 1.0, v + abs(v) + 1.0]]])
+                else:
+                    ops.append(["pre", i, ["constraint", {"par": nm, "value": v if v != 0 else 0.5, "unc": rng.choice([0.1, 0.5]), "rel": False}]])
         # each chi2 member gets a base source so that its total is positive definite
         for i, sp in enumerate(members):
+            if variant == "bare" and not share and sp["cost"] == "chi2" and rng.random() < 0.5:
+                continue  # a member without any uncertainty: the implicit chi2 without errors
             if sp["type"] in ("xy", "indexed"):
                 ops.append(["add_error", {"at": rng.choice(["member", "multi"]), "fits": i, "axis": "y" if sp["type"] == "xy" else None, "err": fitlib.gen_errval(rng, fitlib.size_of(sp), False),
                                           "corr": rng.choice([0.0, 0.0, 0.3]), "rel": False, "name": "b%d" % i}])
@@ -162,11 +184,25 @@ class MultiMachine(Machine):
         solo = None
         if len(sims) == 1:
             solo = FitSim(specs[0])  # I3: the same fit on its own
+        for op in ops[1:]:
+            if op[0] == "pre" and op[1] < len(sims):
+                try:
+                    sims[op[1]].apply(op[2])
+                    res.probe("member_op_before_multifit:" + op[2][0])
+                    solo = None  # (I3 compares with a fit that has no such history)
+                except NotApplicable:
+                    pass
         multi = K.MultiFit([s.fit for s in sims], minimizer=ops[0][2])
         names = list(multi.parameter_names)
         shared = []  # (RefSource, J)
         multi_constraints = []
         fixed = set()
+        for s in sims:
+            fixed.update(s.ref.fixed)  # a parameter fixed in a member before the multi-fit was built stays fixed
+        for s in sims:
+            for nm in fixed:
+                if nm in s.ref.par_names:
+                    s.ref.fixed[nm] = True
         n_mut = 0
         fitted = False
         stale_results = False
